@@ -108,8 +108,8 @@ pub fn run(ctx: &mut Ctx) -> (&'static str, String, bool) {
         },
     };
     let c = &c;
-    let n_hostile = ctx.tier.pick(400u64, 12_000u64);
-    let n_decoded = ctx.tier.pick(1_500u64, 150_000u64);
+    let n_hostile = ctx.tier.pick(1_500u64, 20_000u64);
+    let n_decoded = ctx.tier.pick(8_000u64, 300_000u64);
     let base_rng = ctx.rng.fork(3);
     let parts: Vec<Part> = c
         .kinds()
